@@ -236,7 +236,7 @@ def _e1_shards(tier):
     out += [dict(base, prefix=p) for p in enumerate_prefixes(body_E1, "X", {}, base, 2)]
     base = {"threads": 3, "ops_per_thread": 1, "P": 2, "menu": ["write-typed", "write-traceback", "validate", "flush", "reset"]}
     out += [dict(base, prefix=p) for p in enumerate_prefixes(body_E1, "X", {}, base, 3)]
-    base = {"threads": 2, "ops_per_thread": 2, "P": 2, "menu": ["write-typed", "write-traceback", "validate", "flush", "reset"]}
+    base = {"threads": 2, "ops_per_thread": 2, "P": 2, "menu": ["write-traceback", "flush", "reset"]}
     out += [dict(base, prefix=p) for p in enumerate_prefixes(body_E1, "X", {}, base, 4)]
     return out
 
@@ -258,7 +258,7 @@ OBLIGATIONS = [
         shards=_e1_shards,
         twin=[{"threads": 2, "ops_per_thread": 1, "P": 2, "twin_label": "interleaved"}],
         timeout={"quick": 100, "thorough": 1500},
-        bounds={"quick": "2 threads x 1 operation each from 8 kinds (64 assignments), every schedule with <= 2 preemptions at line granularity in eliot/_output.py", "thorough": "2 threads x 1 op: all schedules (unbounded preemption); 3 threads x 1 op and 2 threads x 2 ops from 5 kinds with <= 2 preemptions"},
+        bounds={"quick": "2 threads x 1 operation each from 8 kinds (64 assignments), every schedule with <= 2 preemptions at line granularity in eliot/_output.py", "thorough": "2 threads x 1 op: all schedules (unbounded preemption); 3 threads x 1 op from 5 kinds and 2 threads x 2 ops from 3 kinds with <= 2 preemptions"},
     ),
     Ob(
         "E2",
